@@ -68,7 +68,7 @@ def ensure_facts(cfgs, repo=REPO):
         if not os.path.exists(p):
             missing.append(c)
     if missing:
-        lock = open(os.path.join(CACHE, '.lock'), 'w')
+        lock = open(os.path.join(d, '.lock'), 'w')      # per tree: different trees are extracted side by side
         fcntl.flock(lock, fcntl.LOCK_EX)
         try:
             procs = []
@@ -611,7 +611,7 @@ def load_witness(name, features='-', repo=REPO, wdir=None):
     os.makedirs(d, exist_ok=True)
     p = os.path.join(d, 'witness-%s-%s-%s.json' % (name, cfg_key(features), dir_hash(wdir)))
     if not os.path.exists(p):
-        lock = open(os.path.join(CACHE, '.lock'), 'w')
+        lock = open(os.path.join(d, '.lock.witness'), 'w')
         fcntl.flock(lock, fcntl.LOCK_EX)
         try:
             if not os.path.exists(p):
